@@ -62,6 +62,10 @@ impl Check for C01 {
     }
 
     fn generate(&self, g: &mut Xo, tier: Tier, run: u64) -> VmSc {
+        if run >= 100 && run < 100 + vmgen::operand_cells() as u64 {
+            // the enumerated operand grid: every int / float instruction x every ordered pair of boundary literals
+            return vmgen::gen_operand_cell((run - 100) as usize);
+        }
         if run == 11 {
             // one very long evaluation (millions of steps) compared with the model at the end
             return vmgen::gen_very_long(g, if tier == Tier::Quick { 3_000_000 } else { 10_000_000 });
